@@ -329,6 +329,9 @@ var c08Kept []struct {
 }
 
 func c08Judge(c *Ctx, cs *Case, roots model.Forest, target, relPrefix string, strict bool, o Outcome, det map[string]any) {
+	if open := mon.OpenUnder(target); len(open) > 0 {
+		c.Violation(cs, "verify.left-descriptors-open", "", map[string]any{"open": open})
+	}
 	for _, k := range c08Kept {
 		c.Count("kept_reports_read_again_after_later_calls", 1)
 		if now := k.err.Error(); now != k.text {
